@@ -112,6 +112,8 @@ class C16(Check):
         self._mc_thread.start()
 
     def post_events(self, ctx, traces):
+        if getattr(self, "_mc_thread", None) is None:       # model checks switched off by the caller (C06 re-uses the corpus)
+            return traces
         self._mc_thread.join()
         if self._mc_err:
             raise self._mc_err
